@@ -58,6 +58,16 @@ def explore_root(prop, desc, tier, seed, res=None, only=None):
     out = []
     root_rec = None
     pres = symfam.presentations3d(s, tier, seed)
+    if prop == "C06" and len(desc[1]) == 2 and desc[1][0][1] != desc[1][1][1]:
+        # "swapping the two rock-salt sublattices": the same letters with the species exchanged.  It is the same
+        # crystal exactly when a proper lattice-preserving motion maps one standardized structure onto the other,
+        # which is decided independently (spglib standardisation + exhaustive congruence search).
+        sw = symfam.build_root((desc[0], ((desc[1][0][0], desc[1][1][1]), (desc[1][1][0], desc[1][0][1])), desc[2]), seed, CAP[tier])
+        if sw is not None:
+            da, db = sym.spg_dataset(s.atoms(), symfam.TOL), sym.spg_dataset(sw.atoms(), symfam.TOL)
+            if da is not None and db is not None and da.number == db.number and np.abs(symfam.cellpar(np.array(da.std_lattice)) - symfam.cellpar(np.array(db.std_lattice))).max() < 1e-4:
+                if symfam.congruent(np.array(da.std_positions), np.array(da.std_types), np.array(db.std_positions), np.array(db.std_types), np.array(db.std_lattice), 10 * symfam.TOL) == "proper":
+                    pres.append(("species.swapped", sw))
     for label, p in pres:
         if only is not None and label not in ("id", only):
             continue
